@@ -307,6 +307,7 @@ func (s *Subscriber) Close() error {
 
 func (s *Subscriber) doClose() error {
 	// Cancel idle handler cleaner.
+	verifPoint("close.begin", "", cid.Undef)
 	close(s.closing)
 
 	// Block any additional explicit Sync calls.
@@ -314,7 +315,9 @@ func (s *Subscriber) doClose() error {
 	s.expSyncClosed = true
 	s.expSyncMutex.Unlock()
 	// Wait for explicit Syncs calls to finish.
+	verifPoint("close.expsync.wait", "", cid.Undef)
 	s.expSyncWG.Wait()
+	verifPoint("close.expsync.waited", "", cid.Undef)
 
 	var err error
 	if s.receiver != nil {
@@ -325,12 +328,15 @@ func (s *Subscriber) doClose() error {
 		}
 		<-s.watchDone
 	}
+	verifPoint("close.receiver.closed", "", cid.Undef)
 
 	// Wait for any syncs to complete.
 	s.asyncWG.Wait()
+	verifPoint("close.async.waited", "", cid.Undef)
 
 	// Stop the distribution goroutine.
 	close(s.inEvents)
+	verifPoint("close.events.closed", "", cid.Undef)
 
 	s.httpPeerstore.Close()
 
@@ -348,12 +354,15 @@ func (s *Subscriber) OnSyncFinished() (<-chan SyncFinished, context.CancelFunc) 
 	// not reading the channel immediately.
 	cq := chanqueue.New[SyncFinished]()
 	ch := cq.In()
+	verifPoint("listen.register", "", cid.Undef)
 	s.addEventChan <- ch
+	verifPoint("listen.registered", "", cid.Undef)
 
 	cncl := func() {
 		if ch == nil {
 			return
 		}
+		verifPoint("listen.cancel", "", cid.Undef)
 		select {
 		case s.rmEventChan <- ch:
 		case <-s.closing:
@@ -444,6 +453,11 @@ func (s *Subscriber) SyncAdChain(ctx context.Context, peerInfo peer.AddrInfo, op
 		}
 	}
 
+	if stopLnk != nil {
+		verifPoint("stop.read", peerInfo.ID, stopLnk.(cidlink.Link).Cid)
+	} else {
+		verifPoint("stop.read", peerInfo.ID, cid.Undef)
+	}
 	var updateLatest bool
 	nextCid := opts.headAdCid
 	if nextCid == cid.Undef {
@@ -624,12 +638,15 @@ func (s *Subscriber) distributeEvents() {
 				return
 			}
 			// Send update to all change notification channels.
+			verifPoint("dist.forward", event.PeerID, event.Cid)
 			for _, ch := range outEventsChans {
 				ch <- event
 			}
 		case ch := <-s.addEventChan:
+			verifPoint("dist.add", "", cid.Undef)
 			outEventsChans = append(outEventsChans, ch)
 		case ch := <-s.rmEventChan:
+			verifPoint("dist.remove", "", cid.Undef)
 			for i, ca := range outEventsChans {
 				if ca == ch {
 					outEventsChans[i] = outEventsChans[len(outEventsChans)-1]
@@ -708,15 +725,18 @@ func (s *Subscriber) watch() {
 		}
 
 		hnd := s.getOrCreateHandler(amsg.PeerID)
+		verifPoint("watch.recv", amsg.PeerID, amsg.Cid)
 
 		// Set the message to be handled by the waiting goroutine.
 		oldMsg := hnd.pendingMsg.Swap(&amsg)
 		// If rhw previous pending message was not nil, then there is an
 		// existing request to sync the ad chain.
 		if oldMsg != nil {
+			verifPoint("watch.swap.replaced", amsg.PeerID, amsg.Cid)
 			log.Infow("Pending announce replaced by new", "previous_cid", oldMsg.Cid, "new_cid", amsg.Cid, "peer", hnd.peerID)
 			continue
 		}
+		verifPoint("watch.swap.spawn", amsg.PeerID, amsg.Cid)
 
 		// If old message is nil, then any previous message is already handled.
 		// Start a new goroutine to handle this message.
@@ -725,8 +745,10 @@ func (s *Subscriber) watch() {
 			// Wait for any previous asyncSyncAdChain to finish before removing the
 			// latest pending messaged and reducing the available items in the sync
 			// semaphore.
+			verifPoint("async.enter", hnd.peerID, cid.Undef)
 			hnd.asyncMutex.Lock()
 			defer hnd.asyncMutex.Unlock()
+			verifPoint("async.locked", hnd.peerID, cid.Undef)
 			if s.syncSem != nil {
 				select {
 				case s.syncSem <- struct{}{}:
@@ -736,7 +758,9 @@ func (s *Subscriber) watch() {
 				case <-ctx.Done():
 				}
 			}
+			verifPoint("async.sem", hnd.peerID, cid.Undef)
 			hnd.asyncSyncAdChain(ctx)
+			verifPoint("async.exit", hnd.peerID, cid.Undef)
 			s.asyncWG.Done()
 		}()
 	}
@@ -867,10 +891,16 @@ func (h *handler) asyncSyncAdChain(ctx context.Context) {
 
 	// Get the latest pending message.
 	amsg := h.pendingMsg.Swap(nil)
+	verifPoint("pending.taken", h.peerID, amsg.Cid)
 
 	adsDepthLimit := h.subscriber.adsDepthLimit
 	nextCid := amsg.Cid
 	latestSyncLink := h.subscriber.GetLatestSync(h.peerID)
+	if latestSyncLink != nil {
+		verifPoint("stop.read", h.peerID, latestSyncLink.(cidlink.Link).Cid)
+	} else {
+		verifPoint("stop.read", h.peerID, cid.Undef)
+	}
 	var stopAtCid cid.Cid
 	if latestSyncLink != nil {
 		stopAtCid = latestSyncLink.(cidlink.Link).Cid
@@ -906,11 +936,13 @@ func (h *handler) asyncSyncAdChain(ctx context.Context) {
 			h.subscriber.receiver.UncacheCid(nextCid)
 		}
 		log.Errorw("Cannot process message", "err", err, "peer", h.peerID)
+		verifPoint("event.emit.begin", h.peerID, nextCid)
 		h.subscriber.inEvents <- SyncFinished{
 			Cid:    nextCid,
 			PeerID: h.peerID,
 			Err:    err,
 		}
+		verifPoint("event.emit.end", h.peerID, nextCid)
 		return
 	}
 	updatePeerstore()
@@ -978,11 +1010,13 @@ func (ss *segmentedSync) reset() {
 
 func (h *handler) sendSyncFinishedEvent(c cid.Cid, count int) {
 	h.subscriber.latestSyncHandler.setLatestSync(h.peerID, c)
+	verifPoint("event.emit.begin", h.peerID, c)
 	h.subscriber.inEvents <- SyncFinished{
 		Cid:    c,
 		PeerID: h.peerID,
 		Count:  count,
 	}
+	verifPoint("event.emit.end", h.peerID, c)
 }
 
 // handle processes a message from the peer that the handler is responsible for.
@@ -1008,7 +1042,9 @@ func (h *handler) handle(ctx context.Context, nextCid cid.Cid, sel ipld.Node, sy
 	h.subscriber.scopedBlockHookMutex.Lock()
 	h.subscriber.scopedBlockHook[h.peerID] = hook
 	h.subscriber.scopedBlockHookMutex.Unlock()
+	verifPoint("sync.enter", h.peerID, nextCid)
 	defer func() {
+		verifPoint("sync.exit", h.peerID, nextCid)
 		h.subscriber.scopedBlockHookMutex.Lock()
 		delete(h.subscriber.scopedBlockHook, h.peerID)
 		h.subscriber.scopedBlockHookMutex.Unlock()
